@@ -203,6 +203,30 @@ def load_contracts():
         mod = importlib.util.module_from_spec(spec)
         sys.modules[name] = mod
         spec.loader.exec_module(mod)
+    bad = refinement_frame_problems()
+    if bad:
+        raise RuntimeError("refinement widens the frame of its abstract contract: " + "; ".join(bad))
+
+
+def refinement_frame_problems():
+    """behavioural subtyping of frames: an override may only write what the abstract contract lets it write.  Checked
+    syntactically: same field, and a condition that is the base condition, a conjunction starting with it, or anything when
+    the base condition is True."""
+    out = []
+    for q, c in CONTRACTS.items():
+        if not getattr(c, "refines", None) or "#canary" in q:
+            continue
+        b = CONTRACTS[c.refines]
+        bm = {}
+        for f, cond in b.modifies:
+            bm.setdefault(f, []).append(" ".join(cond.split()))
+        for f, cond in c.modifies:
+            cond = " ".join(cond.split())
+            if f not in bm:
+                out.append(f"{q}: {f}")
+            elif "True" not in bm[f] and not any(cond == x or cond.startswith("(" + x + ") and ") for x in bm[f]):
+                out.append(f"{q}: {f} when {cond}")
+    return out
 
 
 def canary(base, name, tags, **extra):
